@@ -8,6 +8,7 @@ import Tranp.Lemmas.EngineWF
 import Tranp.Lemmas.EngineChain
 import Tranp.Lemmas.EngineLadder
 import Tranp.Lemmas.EngineSound
+import Tranp.Lemmas.EngineChoice
 import Tranp.Model.Ladder
 import Tranp.Generated.PyRules
 import Tranp.Generated.GramRules
@@ -594,6 +595,60 @@ theorem T6_prefix_shape (env : Env) (hr : env.rules = Generated.pyRules) (toks :
     a derivation containing a `ternary` derivation of the second form) -/
 example : (parse (Env.of Generated.pyRules alphaRx) (fuelBound Generated.pyRules 8) []
     [wtTok ['('], wtTok ['a'], wtTok ['i','f'], wtTok ['c'], wtTok ['e','l','s','e'], wtTok ['d'], wtTok [')'], wtTok ['\n']] nEntryC).isOk = true := by
+  decide +kernel
+
+/-! ## T7 — which derivation: first alternative, longest repetition, nothing reconsidered -/
+
+/-- **Ordered choice.** A successful match of an alternative group `a | b | …` (read without repeat marker) is the match of ONE of
+    its entries, and every entry written before that one was tried at the same cursor and failed: the engine takes the first
+    alternative that matches from the right end of the span and never comes back to a later one. -/
+theorem T7_ordered_choice (env : Env) (fuel : Nat) (ctx : Ctx) (peek : Nat) (es : List Pat) (rep : Rep) (allow : Bool) (out : Out)
+    (hna : rep = .noRepeat ∨ allow = false)
+    (h : matchEntry env fuel ctx peek (.group es .or rep) allow = .ok out) (hok : out.ok = true) :
+    ∃ pre p post f pk, es = pre ++ p :: post ∧ matchEntry env f ctx pk p true = .ok out ∧
+      ∀ q ∈ pre, ∃ f' pk' o, matchEntry env f' ctx pk' q true = .ok o ∧ o.ok = false := by
+  cases fuel with
+  | zero => simp [matchEntry] at h
+  | succ f =>
+    simp only [matchEntry] at h
+    split at h
+    · rename_i hc
+      rcases hna with hr | ha
+      · exact absurd hr hc.1
+      · rw [ha] at hc; cases hc.2
+    · simp only [↓reduceIte] at h
+      exact or_first env es f ctx _ out h hok
+
+/-- **Greedy repetition.** A successful match of `( … )*` or `( … )+` stops only where no token is left or where one more
+    repetition of the body, tried at the very position the loop stopped, fails: the group takes as many repetitions as it can and
+    gives none back (the reason the converse of T6 fails: `T6_complete_counterexample`). -/
+theorem T7_greedy (env : Env) (fuel : Nat) (ctx : Ctx) (peek : Nat) (es : List Pat) (op : Op) (rep : Rep) (out : Out)
+    (hrep : rep = .overZero ∨ rep = .overOne)
+    (h : matchEntry env fuel ctx peek (.group es op rep) true = .ok out) (hok : out.ok = true) :
+    (ctx.rest.drop out.steps).isEmpty = true ∨
+      ∃ f pk o, matchEntry env f (ctx.step out.steps) pk (.group es op rep) false = .ok o ∧ o.ok = false := by
+  cases fuel with
+  | zero => simp [matchEntry] at h
+  | succ f =>
+    simp only [matchEntry] at h
+    have hne : rep ≠ .noRepeat := by
+      rcases hrep with hr | hr <;> subst hr <;> simp
+    split at h
+    · exact repeat_greedy env es op rep hrep f ctx _ 0 0 [] [] out (fun _ => rfl) h hok
+    · rename_i hc
+      exact absurd ⟨hne, trivial⟩ hc
+
+/-- non-vacuity of T7: under `x := "a" | /\\w/` the token `a` is matched by the FIRST alternative although the second matches too;
+    under `y := ("a")*` all three `a` are taken -/
+example :
+    (match matchEntry (Env.of [] (fun _ _ => true)) 5 (Ctx.start [aTok 0]) 0
+        (.group [.pattern ['a'] .terminal .equals, .pattern ['\\', 'w'] .terminal .regexp] .or .noRepeat) true with
+      | .ok out => out.ok && out.steps == 1
+      | .error _ => false) = true ∧
+    (match matchEntry (Env.of [] (fun _ _ => true)) 9 (Ctx.start [aTok 0, aTok 2, aTok 4]) 0
+        (.group [.pattern ['a'] .terminal .equals] .and .overZero) true with
+      | .ok out => out.ok && out.steps == 3
+      | .error _ => false) = true := by
   decide +kernel
 
 /-! ## T5 — error line -/
